@@ -20,6 +20,11 @@ Static clauses decided (necessary conditions of C28):
  CONV    JsonConverter.validate/dbval2val and ArrayConverter.validate/dbval2val return a tracked container whenever an
          owner object is given (every return is a Tracked* construction, or is guarded by `obj is None`, an
          already-tracked test, or a scalar test).
+ BITS    the write bit that marks an attribute as changed is taken from the entity's `_bits_` table, which has a bit for every
+         column-backed attribute.  `_bits_except_volatile_` (the table used for READ tracking, where volatile attributes have
+         bit 0) must never feed `_wbits_`: a volatile Json/array attribute changed in place would get write bit 0, the object
+         would not be queued and the change would never be written.  Checked for every statement in core.py that adds bits to
+         an object's _wbits_ (Attribute.__set__, Entity.set, Entity._attr_changed_).
 """
 NOT_DECIDED = "that the value written at commit equals the in-memory value; aliasing between two attributes"
 
@@ -188,6 +193,33 @@ def run(ctx):
             ctx.ob('C28-CONV.returns-tracked-when-owner-given', f, rn.ast, ok,
                    '' if ok else 'returns an untracked value although an owner object may be given', node=rn.ast)
     ctx.floor('C28-CONV', n, 9, 'return statements in Json/Array converters')
+    # ---------------------------------------------------------------- BITS
+    nb = 0
+    for fn in ctx.repo.rule_funcs():
+        if fn.mod.name != 'pony.orm.core': continue
+        stmts = list(walk_no_nested(fn.node))
+        carriers = {dotted(a.value) for a in stmts if isinstance(a, ast.Assign) and any(isinstance(t, ast.Attribute) and t.attr == '_wbits_' for t in a.targets)
+                    and isinstance(a.value, ast.Name)}
+        adds = []
+        for a in stmts:
+            if isinstance(a, ast.AugAssign) and isinstance(a.op, ast.BitOr) and (
+                    (isinstance(a.target, ast.Attribute) and a.target.attr == '_wbits_') or (isinstance(a.target, ast.Name) and a.target.id in carriers)):
+                adds.append((a, a.value))
+            elif isinstance(a, ast.Assign) and any(isinstance(t, ast.Attribute) and t.attr == '_wbits_' for t in a.targets) and isinstance(a.value, ast.BinOp) \
+                    and isinstance(a.value.op, ast.BitOr):
+                adds.append((a, a.value.right))
+        for a, e in adds:
+            nb += 1
+            srcs = [e]
+            if isinstance(e, ast.Name):
+                srcs = [x.value for x in stmts if isinstance(x, ast.Assign) and any(dotted(t) == e.id for t in x.targets)]
+            tabs = {y.attr for v in srcs for y in ast.walk(v) if isinstance(y, ast.Attribute) and y.attr.startswith('_bits') or isinstance(y, ast.Attribute) and y.attr.startswith('_all_bits')}
+            ok = bool(srcs) and tabs == {'_bits_'}
+            ctx.ob('C28-BITS.write-bit-taken-from-the-full-bit-table', fn, a, ok,
+                   '' if ok else 'the bit added to _wbits_ here comes from %s: for a volatile attribute that table holds 0, so an in-place change of a volatile Json/array '
+                   'value does not mark the object modified and is never written' % (sorted(tabs) or 'an unrecognised source'), node=a, expected='obj._bits_[attr]')
+    ctx.floor('C28-BITS', nb, 3, 'statements adding bits to _wbits_')
+
 
 
 def def_reaches_changed(ctx, cls, f, muts):
@@ -218,6 +250,7 @@ def def_reaches_changed(ctx, cls, f, muts):
 
 
 MUTANTS = [
+    dict(id='C28-b1', file='pony/orm/core.py', fn='Entity._attr_changed_', old="        bit = obj._bits_[attr]", new="        bit = obj._bits_except_volatile_[attr]", expect='C28-BITS'),
     dict(id='C28-m1', file='pony/orm/ormtypes.py', old='    popitem = tracked_method(dict.popitem)\n', new='', expect='TrackedDict.popitem'),
     dict(id='C28-m2', file='pony/orm/ormtypes.py', old='    sort = tracked_method(list.sort)\n', new='', expect='TrackedList.sort'),
     dict(id='C28-m3', file='pony/orm/ormtypes.py', old='    reverse = tracked_method(list.reverse)', new='    reverse = list.reverse', expect='TrackedList.reverse'),
